@@ -167,9 +167,18 @@ func parseKVs(s string) map[string]interface{} {
 		if len(kv) != 2 || kv[1] == "" {
 			continue
 		}
-		if kv[1][0] == 's' {
+		switch kv[1][0] {
+		case 's':
 			m[kv[0]] = kv[1][1:]
-		} else {
+		case 'n': // key present, value nil (JSON null)
+			m[kv[0]] = nil
+		case 'b':
+			m[kv[0]] = false
+		case 'l':
+			m[kv[0]] = []string{}
+		case 'p': // typed nil pointer
+			m[kv[0]] = (*string)(nil)
+		default:
 			n, _ := strconv.Atoi(kv[1][1:])
 			m[kv[0]] = n
 		}
@@ -653,8 +662,13 @@ func (g *gen) kvs() string {
 	for i := h.R.Intn(3); i > 0; i-- {
 		k := g.pick(keys)
 		if h.R.Intn(6) == 0 {
-			es = append(es, fmt.Sprintf("%s~i%d", k, h.R.Intn(5)))
-			h.Count("param.value.nonstring")
+			if h.R.Intn(2) == 0 {
+				es = append(es, k+"~n")
+				h.Count("param.value.nil")
+			} else {
+				es = append(es, k+"~"+g.pick([]string{"i0", "i3", "b", "l", "p"}))
+				h.Count("param.value.nonstring")
+			}
 		} else {
 			es = append(es, k+"~s"+g.name())
 		}
@@ -800,7 +814,8 @@ var gridRules = []string{"none", "const:c1", "const:c9", "const:", "key:chatid",
 	"nest:chatid,gate,chatid~sc2", "nest:chatid,gate,chatid~sc1", "nest:chatid,chat,k~sc1", "nest:chatid,nosuch,",
 	"keyd:chatid,c1", "keyd:chatid,c9", "keyd:chatid,", "nilor:c1,chatid", "nilor:c2,chatid", "nilor:,chatid"}
 var gridParams = []string{"nil", "tnil", "sess:", "sess:chatid~sc1", "sess:chatid~sc2", "sess:chatid~sc9", "sess:chatid~i1",
-	"sess:k~sc1", "map:chatid~sc1", "map:", "map:chatid~sc1;chatid~sc2", "nilmap", "map:k~sc1;scene~sc2", "map:chatid~s", "map:chatid~i0", "sess:chatid~s", "str:c1", "str:", "str:c9", "str:x", "str:no_service",
+	"sess:k~sc1", "map:chatid~sc1", "map:", "map:chatid~sc1;chatid~sc2", "nilmap", "map:k~sc1;scene~sc2", "map:chatid~s", "map:chatid~i0", "map:chatid~n", "map:chatid~b", "map:chatid~l", "map:chatid~p", "map:k~sc1;chatid~n",
+	"sess:chatid~n", "sess:chatid~s", "str:c1", "str:", "str:c9", "str:x", "str:no_service",
 	"other:int", "other:smap", "other:slice", "other:ptr"}
 var gridRoutes = []string{"chat.remote.say", "gate.handler.enter", "nosuch.r.m", ".r.m", "bad", "a.b.c.d", "", "..", "chat.remote"}
 var gridFronts = []string{"c1", "g1", "x", "c9", "", "no_service", "chat.c1"}
